@@ -145,16 +145,14 @@ def obligations(run):
             want = z3.If(D[0]['bools'][i], z3.BitVecVal(one, w), z3.BitVecVal(0, w))
             obs.append(Oblig(op, True, (lambda i, want: lambda res: tobv(bits_of(res[i]), w) == want)(i, want), lane=i, rename=ren(i, D[0])))
     elif op == 'bool_load':
-        base = D[0]['base']
         for i in range(n):
-            truth = z3.Select(run.ex.ext0, base + i) != 0
-            obs.append(Oblig(op, True, (lambda i, truth: lambda res: mask_lane_is(res[i], truth, w))(i, truth), lane=i))
+            truth = run.mem0('a', i) != 0
+            obs.append(Oblig(op, True, (lambda i, truth: lambda res: mask_lane_is(res.val[i], truth, w))(i, truth), lane=i))
     elif op == 'bool_store':
-        base = D[0]['base']; bs = D[1]['bools']
-        final = run.st.ext
+        bs = D[1]['bools']
         for i in range(n):
             want = z3.If(bs[i], z3.BitVecVal(1, 8), z3.BitVecVal(0, 8))
-            obs.append(Oblig(op, True, (lambda i, want: lambda res: z3.Select(final, base + i) == want)(i, want), lane=i, kind='mem'))
+            obs.append(Oblig(op, True, (lambda i, want: lambda res: tobv(res.byte('a', i), 8) == want)(i, want), lane=i, kind='mem'))
     else:
         raise KeyError(op)
     return obs
